@@ -1,6 +1,7 @@
 """C10 — navigation between words, senses and synsets is referentially faithful (two structural clauses + guard)."""
 from __future__ import annotations
 import ast
+from ..pat import Frag
 from ..src import norm, walk_no_nested, AnalysisError
 from ..pyutil import is_self_attr
 
@@ -110,13 +111,13 @@ def r3_translate_guard(ctx, res):
                                             'synsets(ili=...): a synset with no / a proposed ILI would translate to every synset')
     st = ctx.repo.func('_core', 'Sense.translate')
     key = 'sense-translate-via-synset'
-    s2 = norm(st.node)
+    s2 = Frag(st.node)
     res.inst(key, st.module.loc(st.node), 'via self.synset().translate(...) and t_synset.senses()')
     if 'synset = self.synset()' not in s2 or 'synset.translate(lang=lang, lexicon=lexicon)' not in s2 or 't_synset.senses()' not in s2:
         res.find(key, st.module.loc(st.node), 'Sense.translate is no longer the image of Synset.translate')
     wt = ctx.repo.func('_core', 'Word.translate')
     key = 'word-translate-via-senses'
-    s3 = norm(wt.node)
+    s3 = Frag(wt.node)
     res.inst(key, wt.module.loc(wt.node), 'via sense.translate(...) and t_sense.word()')
     if 'sense.translate(lang=lang, lexicon=lexicon)' not in s3 or 't_sense.word()' not in s3:
         res.find(key, wt.module.loc(wt.node), 'Word.translate is no longer the image of Sense.translate')
@@ -126,7 +127,7 @@ def r4_inverse_navigation(ctx, res):
     for mname, q in (('Word.senses', 'get_entry_senses'), ('Synset.senses', 'get_synset_members')):
         f = ctx.repo.func('_core', mname)
         key = f'inverse:{mname}'
-        s = norm(f.node)
+        s = Frag(f.node)
         res.inst(key, f.module.loc(f.node), f'{q}(self._id, self._get_lexicon_ids())')
         if f'{q}(self._id, lexids)' not in s or 'lexids = self._get_lexicon_ids()' not in s \
                 or 'Sense(*sense_data, _wordnet=self._wordnet)' not in s:
